@@ -208,7 +208,7 @@ def _ltail():
 
 _o = sc.op_of
 _QOPS = [_o('A', 1), _o('H'), _o('O', 1), _o('U')]
-_TOPS = [_o('A', 1), _o('H'), _o('R'), _o('N'), _o('O', 1), _o('U')]
+_TOPS = [_o('A', 1), _o('H'), _o('R'), _o('O', 1), _o('U')]
 _QF = [None, 'key_arg', 'in_handler', 'out_handler', 'discard_body']
 _TF = [None, 'key_arg', 'key_resolver', 'in_handler', 'out_handler', 'discard_op', 'discard_body']
 
